@@ -185,26 +185,28 @@ impl Canonical {
     /// Also returns an error if `heads` is empty or `threshold` cannot be
     /// satisified with the number of heads given.
     pub fn quorum(self, repo: &raw::Repository) -> Result<Oid, QuorumError> {
-        let mut candidates = BTreeMap::<_, usize>::new();
+        let mut direct = BTreeMap::<_, usize>::new();
+
+        // Count the direct votes of each distinct head. N.b. equal heads are grouped,
+        // otherwise their ancestry votes would be counted once per duplicate head.
+        for head in self.tips.values() {
+            *direct.entry(*head).or_default() += 1;
+        }
+        let mut candidates = direct.clone();
 
         // Build a list of candidate commits and count how many "votes" each of them has.
         // Commits get a point for each direct vote, as well as for being part of the ancestry
         // of a commit given to this function. Only commits given to the function are considered.
-        for (i, head) in self.tips.values().enumerate() {
-            // Add a direct vote for this head.
-            *candidates.entry(*head).or_default() += 1;
-
+        for (i, (head, votes)) in direct.iter().enumerate() {
             // Compare this head to all other heads ahead of it in the list.
-            for other in self.tips.values().skip(i + 1) {
-                // N.b. if heads are equal then skip it, otherwise it will end up as
-                // a double vote.
-                if *head == *other {
-                    continue;
-                }
+            for (other, other_votes) in direct.iter().skip(i + 1) {
                 let base = Oid::from(repo.merge_base(**head, **other)?);
 
-                if base == *other || base == *head {
-                    *candidates.entry(base).or_default() += 1;
+                // The direct votes of the descendant also count for its ancestor.
+                if base == *head {
+                    *candidates.entry(*head).or_default() += other_votes;
+                } else if base == *other {
+                    *candidates.entry(*other).or_default() += votes;
                 }
             }
         }
